@@ -226,9 +226,9 @@ fn key_difference(a: &str, b: &str) -> String {
     ks.sort();
     if a == b {
         // identical printed keys: they differ only in embedded source locations
-        format!("same-text-{}", ks.join("+"))
+        format!("same-text:{}", ks.join("+"))
     } else {
-        format!("args-{}", ks.join("+"))
+        format!("args:{}", ks.join("+"))
     }
 }
 
